@@ -21,6 +21,7 @@ type C09Case struct {
 	CT         c2.ClipType `json:"ct"`
 	FR         c2.FillRule `json:"fr"`
 	EngineD    bool        `json:"engine_d"` // ClipperD with precision 2 on inputs / 100
+	ViaAddPath bool        `json:"via_add_path,omitempty"` // open subjects added one by one through AddPath
 	Ts         []float64   `json:"ts"`       // extra sample fractions
 }
 
@@ -73,6 +74,7 @@ func drawC09(t *rapid.T) *C09Case {
 	c.CT = rapid.SampledFrom([]c2.ClipType{c2.Intersection, c2.Difference, c2.Union}).Draw(t, "ct")
 	c.FR = rapid.SampledFrom(allFillRules).Draw(t, "fr")
 	c.EngineD = f.R <= 1000000 && rapid.IntRange(0, 4).Draw(t, "engineD") == 0
+	c.ViaAddPath = !c.EngineD && rapid.IntRange(0, 3).Draw(t, "viaAddPath") == 0
 	for i, n := 0, rapid.IntRange(0, 4).Draw(t, "nTs"); i < n; i++ {
 		c.Ts = append(c.Ts, rapid.Float64Range(0, 1).Draw(t, "t"))
 	}
@@ -117,7 +119,11 @@ func runOpen(c *C09Case, withOpen bool) (closed, open Paths, ok bool) {
 		return pathsFromD(cl, 100), pathsFromD(op, 100), ok
 	}
 	e := c2.NewClipper64()
-	if withOpen {
+	if withOpen && c.ViaAddPath {
+		for _, p := range c.Open {
+			e.AddPath(p, c2.Subject, true) // the single-path entry point keeps its own bookkeeping
+		}
+	} else if withOpen {
 		e.AddPaths(c.Open, c2.Subject, true)
 	}
 	if len(c.ClosedSubj) > 0 {
@@ -329,7 +335,7 @@ func judgeC09(c *C09Case, cx *Ctx) *Violation {
 	if inClass {
 		dom = "domain:near-degenerate(" + why + ")"
 	}
-	cx.St.Eval(c, crossesClip && nCov > 0 && nUncov > 0, c.Fam.Label(), "op:"+ctName(c.CT)+"/"+frName(c.FR), boolLabel("engineD", c.EngineD), boolLabel("closed-subject", len(c.ClosedSubj) > 0), dom)
+	cx.St.Eval(c, crossesClip && nCov > 0 && nUncov > 0, c.Fam.Label(), "op:"+ctName(c.CT)+"/"+frName(c.FR), boolLabel("engineD", c.EngineD), boolLabel("open-subjects-via-AddPath", c.ViaAddPath), boolLabel("closed-subject", len(c.ClosedSubj) > 0), dom)
 	cx.St.Count("coverage_points_judged", int64(judged))
 	return nil
 }
